@@ -91,6 +91,7 @@ fn main() {
         "run" => cmd_run(&args),
         "replay" => cmd_replay(&args),
         "dump" => cmd_dump(&args),
+        "render" => cmd_render(&args),
         "loghash" => cmd_loghash(&args),
         _ => {
             eprintln!("usage: bwsim run|replay|dump|loghash ...");
@@ -115,6 +116,27 @@ fn cmd_dump(args: &[String]) -> i32 {
         }
         break;
     }
+    0
+}
+
+/// Prints the files, stdin and argv a replay file describes (for humans).
+fn cmd_render(args: &[String]) -> i32 {
+    let Some(path) = args.get(2) else { return 2 };
+    let Ok(bytes) = std::fs::read(path) else { return 2 };
+    let Ok(rf) = serde_json::from_slice::<ReplayFile>(&bytes) else { return 2 };
+    let j = model::judge(&rf.world);
+    println!("argv: blockwatch {:?}", rf.world.args.argv());
+    for r in &j.rendered {
+        println!("----- {}{}", r.path, if j.poisoned.contains(&r.path) { "  (poisoned)" } else { "" });
+        for (i, l) in r.lines.iter().enumerate() {
+            println!("{:3} {}", i + 1, l);
+        }
+    }
+    let order: Vec<usize> = (0..rf.world.files.len()).filter(|&i| !matches!(rf.world.files[i].diff, world::FileDiff::None)).collect();
+    if let Some(t) = rf.world.stdin_text(&j.rendered, &order) {
+        println!("----- stdin\n{t}");
+    }
+    println!("expected: {}", serde_json::to_string(&j.expected).unwrap());
     0
 }
 
